@@ -188,3 +188,39 @@ func TestReferenceCalibrations(t *testing.T) {
 		t.Fatalf("none: %+v", dc.nodes)
 	}
 }
+
+// the reference for the symbols added with the 2-element forests
+func TestReferenceNewSymbols(t *testing.T) {
+	// display:none wins over every property that rewrites display (GCPM footnotes, running elements)
+	for _, k := range []extraKind{xFootnote, xFootnoteInline, xRunning, xFloat, xAbs, xFixed} {
+		dc := newDoc([]int{0, 1}, []disp{dNone, dBlock}, extra{k, 1})
+		if dc.nodes[1].alive || dc.nodes[2].alive || dc.textAlive(1) {
+			t.Fatalf("%s + display:none must generate nothing: %+v", extraName[k], dc.nodes[1])
+		}
+	}
+	// footnote-display decides the box of a footnote, whatever display says
+	dc := newDoc([]int{0, 0}, []disp{dCell, dInline}, extra{xFootnote, 1})
+	if dc.nodes[1].cd != dBlock || !dc.nodes[1].alive {
+		t.Fatalf("footnote: %+v", dc.nodes[1])
+	}
+	dc = newDoc([]int{0, 0}, []disp{dFlex, dInline}, extra{xFootnoteInline, 1})
+	if dc.nodes[1].cd != dInline || !dc.nodes[1].alive {
+		t.Fatalf("inline footnote: %+v", dc.nodes[1])
+	}
+	// a replaced element that loads: no child, no pseudo-element; one that fails: the fallback lives
+	for _, k := range []extraKind{xReplaced, xObjPng, xSvg} {
+		dc = newDoc([]int{0, 1}, []disp{dListItem, dBlock}, extra{k, 1})
+		if !dc.nodes[1].alive || !dc.nodes[1].replaced || dc.nodes[2].alive || dc.textAlive(1) || dc.nodes[2].deadWhy != "replaced-child" {
+			t.Fatalf("%s: %+v %+v", extraName[k], dc.nodes[1], dc.nodes[2])
+		}
+	}
+	dc = newDoc([]int{0, 1}, []disp{dBlock, dBlock}, extra{xObjBroken, 1})
+	if !dc.nodes[1].alive || dc.nodes[1].replaced || !dc.nodes[2].alive || !dc.textAlive(1) {
+		t.Fatalf("object-broken: %+v %+v", dc.nodes[1], dc.nodes[2])
+	}
+	// inside a running element rules 1.1 / 1.2 of CSS 2.1 §17.2.1 are applied later (margin box)
+	dc = newDoc([]int{0, 1}, []disp{dBlock, dColumn}, extra{xRunning, 1})
+	if !dc.nodes[2].alive || !dc.textAlive(2) {
+		t.Fatalf("column inside a running element: %+v", dc.nodes[2])
+	}
+}
